@@ -383,6 +383,9 @@ class Exec(Interp):
             except BreakEx:
                 exited = True
             if exited:
+                for i, x in enumerate(spec.get('on_break', [])):
+                    # assertions the contract attaches to leaving this loop through `break`
+                    self.ctx.oblige(self.oname('loop-break', line, i), self.goal(gsub(x), fr), 'post', line)
                 return          # continue after the loop with the break state
             set_k(kv + 1)
             for g, e1 in gu.items():
@@ -494,7 +497,7 @@ class Exec(Interp):
     def owns(self, attr):
         """the function under verification owns a representation field: its contract declares it modified"""
         c = self.contract
-        if c is None:
+        if c is None or getattr(c, 'rep_reader', False):
             return True
         paths = list(getattr(c, 'modifies', [])) + list(getattr(c, 'yield_havoc', [])) + \
             ['self.' + k for k in list(getattr(c, 'sets', {})) + list(getattr(c, 'sets_shape', {}))]
